@@ -78,7 +78,8 @@ def install(ctx, repo, probes):
               "rec/last-printable-point", "diff/nominal-offset2-other-zone",
               "shift/print-strftime-fallback-week-date", "diff/plain", "diff/offsets",
               "diff/as-total", "diff/negative", "diff/print-format",
-              "diff/tiny-seconds", "malformed/empty-item", "diff/zero", "diff/zero-as-total",
+              "diff/tiny-seconds", "malformed/empty-item",
+              "print-format/expanded-year", "diff/zero", "diff/zero-as-total",
               "diff/same-nominal-offsets-both-sides", "total/zero", "rec/forward", "rec/reverse",
               "total/duration", "malformed/exit", "child/ok",
               "child/malformed"):
@@ -1012,6 +1013,31 @@ def make_ctime(rng):
             "nontrivial": True}
 
 
+def expanded_print_cases():
+    """print formats that spell the expanded-year digits (+X), given to
+    items written with a plain four-digit year and to expanded ones"""
+    for argv, out in (
+            (["2020-01-01T00Z", "-f", "+XCCYY-MM-DDThhZ"],
+             "+002020-01-01T00Z"),
+            (["20200101T0630Z", "-f", "+XCCYYDDDThhmmZ"],
+             "+002020001T0630Z"),
+            (["2020-W01-3T06:30:00+05:30",
+              "--print-format=+XCCYY-Www-DThh:mm+hh:mm"],
+             "+002020-W01-3T06:30+05:30"),
+            (["+012020-01-01T00Z", "--format", "+XCCYY-MM-DDThhZ"],
+             "+012020-01-01T00Z"),
+            (["2020-01-01T00Z", "--offset=P1D", "-f", "+XCCYY-MM-DDThhZ"],
+             "+002020-01-02T00Z"),
+            (["ref", "--ref", "1999-12-31T23Z", "-f", "+XCCYYDDDThhZ"],
+             "+001999365T23Z"),
+            (["R2/2020-01-01T00Z/P1D", "-f", "+XCCYY-MM-DDThhZ"],
+             "+002020-01-01T00Z\n+002020-01-02T00Z")):
+        yield {"op": "run", "argv": argv, "env": {}, "local": [0, 0],
+               "expect": {"stdout": out + "\n"},
+               "classes": ["print-format/expanded-year"],
+               "nontrivial": True}
+
+
 def empty_item_cases():
     """an empty (or blank) item in every positional slot is malformed too"""
     good = "2000-01-01T00:00:00Z"
@@ -1185,7 +1211,8 @@ def workload(ctx, repo):
             ctx.case = case
             run_case(ctx, repo, case)
         for case in itertools.chain(diff_zone_cases(), tiny_diff_cases(),
-                                    empty_item_cases()):
+                                    empty_item_cases(),
+                                    expanded_print_cases()):
             ctx.case = case
             run_case(ctx, repo, case)
         for case in week_date_fallback_cases():
